@@ -4,6 +4,7 @@ import (
 	"flag"
 	"fmt"
 	"reflect"
+	"regexp"
 	"sort"
 	"strings"
 
@@ -13,6 +14,8 @@ import (
 )
 
 func init() { cmds["sql-roundtrip"] = sqlRoundTrip }
+
+var nearWord = regexp.MustCompile(`near '([A-Za-z_]+)'`)
 
 // dump renders a syntax tree canonically by reflection: type names and field values, with redundant parentheses
 // (ParenExpr around an expression) removed.  It has no knowledge of SQL.
@@ -116,6 +119,20 @@ func sqlRoundTrip(args []string) error {
 		s2, err := sqlparser.Parse(printed)
 		if err != nil {
 			res["stage"], res["err"] = "parse2", err.Error()
+			// where the first tree keeps the word the second parse stumbles over: the names of plain string fields (as opposed to identifier
+			// nodes) whose value is that word
+			if m := nearWord.FindStringSubmatch(err.Error()); m != nil {
+				fields := map[string]bool{}
+				for _, f := range regexp.MustCompile(`(?i)(\w+):"`+regexp.QuoteMeta(m[1])+`"`).FindAllStringSubmatch(dumpStmt(s1), -1) {
+					fields[f[1]] = true
+				}
+				names := []interface{}{}
+				for k := range fields {
+					names = append(names, k)
+				}
+				sort.Slice(names, func(i, j int) bool { return names[i].(string) < names[j].(string) })
+				res["plain_string_fields"] = names
+			}
 			return nil
 		}
 		d1, d2 := dumpStmt(s1), dumpStmt(s2)
